@@ -538,6 +538,13 @@ func (s *c15Stores) observe(tx *bbolt.Tx) string {
 			b.WriteString(str)
 		}
 	}
+	// every lookup API per store and id: LoadById | LoadEntity | IsEntityPresent, GetEntityBucket != nil
+	b.WriteString(" L")
+	for sel := 0; sel < 3; sel++ {
+		for id := 1; id <= c15NIds; id++ {
+			fmt.Fprintf(&b, " %d.%d=%s", sel, id, s.lookups(tx, sel, c15IdS(id)))
+		}
+	}
 	stores := []boltz.Store{s.a, s.a1, s.a2}
 	queries := [][2]string{{"t", "true"}, {"n1", `name = "v1"`}, {"r1", `anyOf(roles) = "r1"`}, {"s", "true sort by name"}}
 	b.WriteString(" Q")
@@ -585,6 +592,75 @@ func (s *c15Stores) observe(tx *bbolt.Tx) string {
 	b.WriteString(" D ")
 	b.WriteString(c15Dump(tx))
 	return b.String()
+}
+
+func (s *c15Stores) lookups(tx *bbolt.Tx, sel int, id string) string {
+	var byId, filled string
+	var store boltz.Store
+	render := func(t *c15Thing, child string) string { return c15ThingStr(t) + "/" + child }
+	switch sel {
+	case 0:
+		store = s.a
+		if e, err := s.a.LoadById(tx, id); err != nil {
+			byId = c15ErrStr(err)
+		} else {
+			byId = render(e, "_")
+		}
+		e := &c15Thing{}
+		if found, err := s.a.LoadEntity(tx, id, e); err != nil {
+			filled = "err:" + toWire(err.Error())
+		} else if !found {
+			filled = "-"
+		} else if e.Id != id {
+			filled = "wrong-id"
+		} else {
+			filled = render(e, "_")
+		}
+	case 1:
+		store = s.a1
+		if e, err := s.a1.LoadById(tx, id); err != nil {
+			byId = c15ErrStr(err)
+		} else {
+			byId = render(&e.c15Thing, c15OptVal(e.Code))
+		}
+		e := &c15Ext1{}
+		if found, err := s.a1.LoadEntity(tx, id, e); err != nil {
+			filled = "err:" + toWire(err.Error())
+		} else if !found {
+			filled = "-"
+		} else if e.Id != id {
+			filled = "wrong-id"
+		} else {
+			filled = render(&e.c15Thing, c15OptVal(e.Code))
+		}
+	default:
+		store = s.a2
+		if e, err := s.a2.LoadById(tx, id); err != nil {
+			byId = c15ErrStr(err)
+		} else {
+			byId = render(&e.c15Thing, c15OptVal(e.Colour))
+		}
+		e := &c15Ext2{}
+		if found, err := s.a2.LoadEntity(tx, id, e); err != nil {
+			filled = "err:" + toWire(err.Error())
+		} else if !found {
+			filled = "-"
+		} else if e.Id != id {
+			filled = "wrong-id"
+		} else {
+			filled = render(&e.c15Thing, c15OptVal(e.Colour))
+		}
+	}
+	flags := "-"
+	if store.IsEntityPresent(tx, id) {
+		flags = "P"
+	}
+	if store.GetEntityBucket(tx, []byte(id)) != nil {
+		flags += "B"
+	} else {
+		flags += "-"
+	}
+	return byId + "|" + filled + "|" + flags
 }
 
 type c15DumpVisitor struct{ lines []string }
